@@ -60,6 +60,14 @@ func (i *IFunc) Type() types.Type {
 		if !ok {
 			panic(fmt.Errorf("invalid resolver type of %q; expected *types.PointerType, got %T", i.Ident(), i.Resolver.Type()))
 		}
+		// The resolver is a function returning a pointer to the indirect
+		// function; the type of the IFunc is that pointer type (LLVM prints
+		// `ifunc <function type>, <resolver type> @resolver`).
+		if sig, ok := typ.ElemType.(*types.FuncType); ok {
+			if ret, ok := sig.RetType.(*types.PointerType); ok {
+				typ = ret
+			}
+		}
 		i.Typ = typ
 	}
 	return i.Typ
